@@ -75,6 +75,12 @@ type PyModule struct {
 	Indent        string
 	CRLF          bool
 	BlankInBlocks bool // empty / blank-only lines between the statements of indented blocks
+	// TrailIndent: the text ends with a last line that holds nothing but indentation and has no line break (what an
+	// editor leaves behind); "" = no such line
+	TrailIndent string
+	// LongLine: the module has one physical line of LongLineBytes (>= 64 KiB: a long string literal or comment)
+	LongLine      bool
+	LongLineBytes int
 	NoFinalNL     bool
 	Large         bool
 	Flat          bool // large module made of one-line declarations only
@@ -392,6 +398,14 @@ func GenPy(r *run.Rand, file string, large bool, idBase int) *PyModule {
 	// CRLF modules carry a signature suffix of their own: keep the two pinned import forms out of them
 	g.noPinnedForms = large || m.CRLF
 	m.NoFinalNL = r.Chance(1, 8)
+	if !large && r.Chance(1, 16) {
+		m.NoFinalNL = true
+		m.TrailIndent = strings.Repeat(m.Indent, r.Range(1, 2))
+	}
+	m.LongLine = !large && r.Chance(1, 30)
+	if m.TrailIndent != "" || m.LongLine {
+		g.noPinnedForms = true // these modules carry a signature suffix of their own
+	}
 
 	if large && r.Bool() {
 		g.flatLarge(m)
@@ -439,7 +453,43 @@ func GenPy(r *run.Rand, file string, large bool, idBase int) *PyModule {
 	if !large {
 		m.shrinkTo(PySmallBudget)
 	}
+	if m.TrailIndent != "" && r.Chance(1, 3) {
+		// a module that consists of a single class / function
+		for i := len(m.Items) - 1; i >= 0; i-- {
+			if m.Items[i].Class != nil || m.Items[i].Func != nil {
+				m.Items = []PyItem{m.Items[i]}
+				break
+			}
+		}
+		m.render()
+	}
+	if m.LongLine {
+		g.addLongLine(m)
+	}
 	return m
+}
+
+// addLongLine puts one physical line of 64 KiB or more (embedded data) into the first half of the module, so that
+// declarations follow it: a module-level assignment of a long string literal, a one-line def returning it, or a
+// comment line.
+func (g *pyGen) addLongLine(m *PyModule) {
+	r := g.r
+	n := 65536 + r.Intn(9000)
+	unit := r.Pick([]string{"A", "x7", "data-", "0123456789abcdef"})
+	blob := strings.Repeat(unit, n/len(unit)+1)[:n]
+	var it PyItem
+	switch r.Intn(4) {
+	case 0:
+		it = PyItem{Func: &PyFunc{Name: g.nm.snakeVerb(), OneLine: true, Body: []PyStmt{{Text: "return \"" + blob + "\""}}}}
+	case 1:
+		it = PyItem{Comment: "# " + blob}
+	default:
+		it = PyItem{Text: strings.ToUpper(r.Pick(lowerWords)) + "_" + g.nm.id() + " = \"" + blob + "\""}
+	}
+	at := r.Intn(len(m.Items)/2 + 1)
+	m.Items = append(m.Items[:at], append([]PyItem{it}, m.Items[at:]...)...)
+	m.render()
+	m.LongLineBytes = n
 }
 
 // flatLarge fills m with 33-70 one-line declarations at module level: more than 31 lexer events without a single
@@ -683,7 +733,7 @@ func (o *pyOut) class(level int, c *PyClass) {
 // inside blocks): the same declarations, only the layout differs from Text.
 func (m *PyModule) CanonicalText() string {
 	c := *m
-	c.Indent, c.CRLF, c.NoFinalNL, c.BlankInBlocks = "    ", false, false, false
+	c.Indent, c.CRLF, c.NoFinalNL, c.BlankInBlocks, c.TrailIndent = "    ", false, false, false, ""
 	c.render()
 	return c.Text
 }
@@ -710,6 +760,9 @@ func (m *PyModule) render() {
 	t := o.sb.String()
 	if m.NoFinalNL {
 		t = strings.TrimRight(t, "\n")
+	}
+	if m.TrailIndent != "" {
+		t += "\n" + m.TrailIndent
 	}
 	m.LexEvents = pyLexEvents(t)
 	if m.CRLF {
@@ -799,7 +852,7 @@ func pyLexEvents(t string) int {
 // Shape is a structural description without the random names.
 func (m *PyModule) Shape() string {
 	var sb strings.Builder
-	fmt.Fprintf(&sb, "ind%q crlf%v nl%v flat%v blank%v|", m.Indent, m.CRLF, m.NoFinalNL, m.Flat, m.BlankInBlocks)
+	fmt.Fprintf(&sb, "ind%q crlf%v nl%v flat%v blank%v trail%d long%v|", m.Indent, m.CRLF, m.NoFinalNL, m.Flat, m.BlankInBlocks, len(m.TrailIndent), m.LongLine)
 	var fn func(f *PyFunc)
 	fn = func(f *PyFunc) {
 		fmt.Fprintf(&sb, "f(d%d a%v o%v p%d:", len(f.Decos), f.Async, f.OneLine, strings.Count(f.Params, ","))
